@@ -254,5 +254,11 @@ def run(ctx):
         okb = len(bd) == 1 and len(me) == 1 and 'Build' in can.resolve_operand(me[0].term.args[1]) and me[0].term.dest.local == 0
         ctx.ob('R18.5', 'create_pool reports a build error (timeouts without runtime) as CreatePoolError::Build', okb, ctx.where(cp), '', construct='create_pool:build-error')
 
+    # ---- R18.6 the build error itself: PoolBuilder::build() refuses every configured timeout without a runtime ---------------
+    # (the last clause of C18 rests on it: "create_pool reports timeouts configured without a runtime as a build error")
+    from .mcommon import roles as managed_roles
+    from .rules_C10 import build_runtime_check
+    build_runtime_check(ctx, managed_roles(ctx), 'R18.6')
+
     ctx.not_decided += ["tokio_postgres::Config's own parsing and setter semantics (e.g. that host() appends)"]
     ctx.assumptions += ['tokio_postgres::Config setters of the same name put the option into effect; host/hostaddr/port append']
